@@ -444,8 +444,7 @@ static void scenario(void)
       OKW();
     }
     c14_disarm(NF);
-    if (c14_f == 0)
-      VP_BOUND(vp_alloc_calls - c14_base == NALLOC, "NALLOC must equal the number of allocations of the unfailed call (slices are derived from it)");
+    C14_NALLOC_CHECK(NALLOC);
     VP_ASSERT(ares_dns_record_rr_cnt(REC, ARES_SECTION_ANSWER) == 1 &&
                 ares_dns_rr_get_u16(ares_dns_record_rr_get_const(REC, ARES_SECTION_ANSWER, 0), ARES_RR_MX_PREFERENCE) == pref,
               "source record untouched");
